@@ -28,115 +28,58 @@ func checkC14(c *an.Ctx) {
 
 	onceGuards(c, "C14.1")
 
-	// C14.2
-	ctxCall := r.callOf[r.ctxFn]
-	for _, ph := range r.phases() {
-		c.Check(an.Dominates(ctxCall, ph.call), "C14.2", an.Short(r.run)+":context-before-"+ph.name, ph.call.Pos(), "context resolution (up, before) precedes the "+ph.name+" phase", "the "+ph.name+" phase can run before the context is up")
+	// C14.2–C14.4 on the Run trace (every helper of pkg/runner inlined)
+	checkRunTable(c, "C14.2", map[string]bool{"order-context": true, "context-failure": true})
+	checkRunTable(c, "C14.3", map[string]bool{"before-once": true})
+	checkRunTable(c, "C14.4", map[string]bool{"after-once": true})
+	// Up, Before and After act on one context object
+	var upRecv, beforeRecv, afterRecv []ssa.Value
+	for _, fn := range r.scope {
+		for _, f2 := range an.WithAnon(fn) {
+			an.EachInstr(f2, func(in ssa.Instruction) {
+				if cc, ok := an.IsCallTo(in, fnCtxUp); ok && an.Short(f2) != fnCtxBefore {
+					upRecv = append(upRecv, cc.Args[0])
+				}
+				if cc, ok := an.IsCallTo(in, fnCtxBefore); ok {
+					beforeRecv = append(beforeRecv, cc.Args[0])
+				}
+				if cc, ok := an.IsCallTo(in, fnCtxAfter); ok {
+					afterRecv = append(afterRecv, cc.Args[0])
+				}
+			})
+		}
 	}
-	outs := exploreRun0(c, r, "context")
-	bad := ""
-	for _, o := range outs {
-		for _, e := range o.Effects {
-			for _, ph := range r.phases() {
-				if e == ph.name {
-					bad = "phase " + e + " runs although the context could not be brought up"
+	overlap := func(as, bs []ssa.Value) bool {
+		for _, a := range as {
+			for _, b := range bs {
+				sa := p.DeepSources(a, 3, true)
+				sb := p.DeepSources(b, 3, true)
+				for _, x := range sa {
+					for _, y := range sb {
+						if x == y {
+							return true
+						}
+					}
 				}
 			}
 		}
-		if o.End != "return" || o.Ret[len(o.Ret)-1].K != an.ANonNil {
-			bad = "Run does not return a non-nil error when the context cannot be brought up"
+		return false
+	}
+	if len(upRecv) == 0 || len(beforeRecv) == 0 || len(afterRecv) == 0 {
+		c.Bad("C14.2", an.Short(r.run)+":context-hooks", r.run.Pos(), "Run's closure does not call all of Up, Before and After on the task's context (%d/%d/%d call sites)", len(upRecv), len(beforeRecv), len(afterRecv))
+	} else {
+		c.Check(overlap(upRecv, beforeRecv), "C14.2", an.Short(r.ctxFn)+":same-context", r.ctxFn.Pos(), "Up and Before act on the same context", "Up and Before act on different contexts")
+		c.Check(overlap(upRecv, afterRecv), "C14.4", an.Short(r.run)+":After(context)", r.run.Pos(), "After runs on the context that was brought up", "After does not run on the context that was brought up for the task")
+	}
+	// a failing context before fails the task: its error is not dropped where it is called
+	for _, fn := range r.scope {
+		for _, ci := range an.CallsIn(fn, fnCtxBefore) {
+			fate := p.ErrFate(ci, noReturn)
+			c.Check(fate.Kind == "propagated" || fate.Kind == "converted", "C14.2", an.Short(fn)+":err(Before)", ci.Pos(), "a failing context before fails the task", "a failing context before is dropped: "+fate.Detail)
 		}
-	}
-	if len(outs) == 0 {
-		bad = "no path"
-	}
-	if bad != "" {
-		c.Bad("C14.2", an.Short(r.run)+":row context fails", ctxCall.Pos(), "%s", bad)
-	} else {
-		c.OK("C14.2", an.Short(r.run)+":row context fails", ctxCall.Pos(), "returns the error, no phase runs (%d paths)", len(outs))
-	}
-	ups := an.CallsIn(r.ctxFn, fnCtxUp)
-	befs := an.CallsIn(r.ctxFn, fnCtxBefore)
-	if len(ups) == 1 && len(befs) == 1 {
-		fate := p.ErrFate(ups[0], noReturn)
-		c.Check(an.Dominates(ups[0], befs[0]) && (fate.Kind == "propagated" || fate.Kind == "converted"), "C14.2", an.Short(r.ctxFn)+":up-then-before", ups[0].Pos(), "Up precedes Before and a failed Up returns first", "Up does not precede Before, or its failure does not return: "+fate.Detail)
-		fate2 := p.ErrFate(befs[0], noReturn)
-		c.Check(fate2.Kind == "propagated" || fate2.Kind == "converted", "C14.2", an.Short(r.ctxFn)+":err(Before)", befs[0].Pos(), "a failing context before fails the task", "a failing context before is dropped: "+fate2.Detail)
-		// same context object
-		c.Check(an.SameValue(ups[0].Common().Args[0], befs[0].Common().Args[0]) || an.Prov(ups[0].Common().Args[0]) == an.Prov(befs[0].Common().Args[0]), "C14.2", an.Short(r.ctxFn)+":same-context", ups[0].Pos(), "Up and Before act on the same context", "Up and Before act on different contexts")
-	} else {
-		c.Und("C14.2", an.Short(r.ctxFn)+":up-then-before", r.ctxFn.Pos(), "expected one Up and one Before call in the context resolution, found %d and %d", len(ups), len(befs))
 	}
 
-	// C14.3
-	before := p.Func("pkg/runner", "ExecutionContext", "Before")
-	if before != nil {
-		sites := p.CallSitesOf(before)
-		for _, site := range sites {
-			in := site.Parent()
-			inLoop := an.InnermostLoop(an.Loops(in), site.Block()) != nil
-			c.Check(in == r.ctxFn && !inLoop, "C14.3", an.Short(in)+":call(Before)", site.Pos(), "the context's before hook is run by the context resolution, once", "ExecutionContext.Before is also called from "+an.Short(in)+" (or inside a loop)")
-		}
-		if len(sites) == 0 {
-			c.Bad("C14.3", "ExecutionContext.Before:callers", before.Pos(), "the context's before hook is never run")
-		}
-	}
-	sites := p.CallSitesOf(r.ctxFn)
-	nInRun := 0
-	for _, site := range sites {
-		in := site.Parent()
-		if in == r.run {
-			nInRun++
-			inLoop := an.InnermostLoop(an.Loops(in), site.Block()) != nil
-			c.Check(!inLoop && nInRun == 1, "C14.3", an.Short(in)+":call(context-resolution)", site.Pos(), "Run resolves the context once", "Run resolves the context more than once or in a loop: the context's before hook runs again")
-			continue
-		}
-		// any other caller reachable from Run makes the hook run again within one task execution
-		reach := p.Reach([]*ssa.Function{r.run}, func(e an.CallEdge) bool { return an.InModule(e.Callee) })
-		if _, ok := reach[in]; ok {
-			c.Bad("C14.3", an.Short(in)+":call(context-resolution)", site.Pos(), "%s, which runs as part of TaskRunner.Run, resolves the context again: the context's before hook runs more than once per task execution", an.Short(in))
-		} else {
-			c.Note("C14.3", an.Short(in)+":call(context-resolution)", site.Pos(), "context resolved outside Run")
-		}
-	}
-	if nInRun == 0 {
-		c.Bad("C14.3", an.Short(r.run)+":call(context-resolution)", r.run.Pos(), "Run never resolves the task's context")
-	}
-
-	afterOnAllExits(c, r, "C14.4")
 	downRules(c, r, "C14.5")
-}
-
-// exploreRun0 explores Run from its entry with the given stage failing;
-// "context" makes the context resolution fail.
-func exploreRun0(c *an.Ctx, r *runnerRoles, failAt string) []an.Outcome {
-	phs := r.phases()
-	ctxErrs := map[ssa.Value]bool{}
-	for _, e := range errOf(r.callOf[r.ctxFn]) {
-		ctxErrs[e] = true
-	}
-	ex := &an.Explorer{P: c.P, NoReturn: noReturn, MaxDepth: 1, Inline: func(f *ssa.Function) bool { return f.Parent() == r.run }}
-	ex.Atom = func(v ssa.Value) (an.AVal, bool) {
-		if ctxErrs[v] {
-			if failAt == "context" {
-				return an.AVal{K: an.ANonNil}, true
-			}
-			return an.AVal{K: an.ANil}, true
-		}
-		return an.AVal{}, false
-	}
-	ex.Effect = func(in ssa.Instruction, st *an.State) string {
-		for _, ph := range phs {
-			if in == ssa.Instruction(ph.call) {
-				return ph.name
-			}
-		}
-		if _, ok := an.IsCallTo(in, fnCtxAfter); ok {
-			return "ctx.After"
-		}
-		return ""
-	}
-	return ex.RunFrom(r.run, r.callOf[r.ctxFn], nil)
 }
 
 func onceGuards(c *an.Ctx, rule string) {
@@ -240,125 +183,22 @@ func onceGuards(c *an.Ctx, rule string) {
 	}
 }
 
-func afterOnAllExits(c *an.Ctx, r *runnerRoles, rule string) {
-	p := c.P
-	f := r.run
-	// the deferred function that calls ExecutionContext.After
-	var d *ssa.Defer
-	var afterFn *ssa.Function
-	an.EachInstr(f, func(in ssa.Instruction) {
-		df, ok := in.(*ssa.Defer)
-		if !ok {
-			return
-		}
-		if _, ok := an.IsCallTo(df, fnCtxAfter); ok {
-			d = df
-			return
-		}
-		for _, callee := range p.Callees(&df.Call) {
-			if len(an.CallsIn(callee, fnCtxAfter)) > 0 {
-				d, afterFn = df, callee
-			}
-		}
-	})
-	if d == nil {
-		c.Bad(rule, an.Short(f)+":defer(After)", f.Pos(), "Run does not defer the context's after hook: it is skipped when the task fails or is skipped")
-		return
-	}
-	ctxCall := r.callOf[r.ctxFn]
-	// every return after the context was resolved either is dominated by the defer or is the output-creation failure
-	for _, ret := range an.Returns(f) {
-		if !an.Dominates(ctxCall, ret) {
-			continue
-		}
-		if an.Dominates(d, ret) {
-			continue
-		}
-		// allowed: context resolution failed, or NewTaskOutput failed
-		allowed := false
-		for _, g := range an.Guards(ret.Block()) {
-			if x, eq, ok := an.NilTest(g.Cond); ok && (eq != g.Outcome) {
-				for _, e := range errOf(ctxCall) {
-					if x == e {
-						allowed = true
-					}
-				}
-				if r.newOutputCall != nil {
-					for _, e := range errOf(r.newOutputCall) {
-						if x == e {
-							allowed = true
-						}
-					}
-				}
-			}
-		}
-		c.Check(allowed, rule, an.Short(f)+":exit-without-After", ret.Pos(), "exit before the task's output exists (nothing was started)", "Run can return after the context was resolved without running the context's after hook")
-	}
-	c.OK(rule, an.Short(f)+":defer(After)", d.Pos(), "the context's after hook is deferred; later exits all run it")
-	// exactly one After per run of the deferred function, on the resolved context
-	if afterFn != nil {
-		calls := an.CallsIn(afterFn, fnCtxAfter)
-		one := len(calls) == 1
-		if one {
-			first := afterFn.Blocks[0].Instrs[0]
-			all, _ := an.OnAllPathsToExit(first, func(in ssa.Instruction) bool { return in == calls[0].(ssa.Instruction) }, nil)
-			inLoop := an.InnermostLoop(an.Loops(afterFn), calls[0].Block()) != nil
-			one = all && !inLoop
-			// receiver: the context resolved by Run
-			recv := calls[0].Common().Args[0]
-			same := false
-			for _, src := range an.Sources(recv) {
-				if e, ok := src.(*ssa.Extract); ok && e.Tuple == ssa.Value(ctxCall) {
-					same = true
-				}
-			}
-			c.Check(same, rule, an.Short(afterFn)+":After(context)", calls[0].Pos(), "After runs on the context Run resolved", "After does not run on the context Run resolved: "+an.Prov(recv))
-		}
-		c.Check(one, rule, an.Short(afterFn)+":After-once", afterFn.Pos(), "exactly one After on every path of the deferred function", "the deferred function does not run the context's after hook exactly once on every path")
-	}
-	// the task's own after precedes: phase "after" is a plain call in Run, before the deferred function can run
-	c.OK(rule, an.Short(f)+":order", r.callOf[r.after].Pos(), "the task's after hooks are a synchronous phase of Run; the deferred context hook runs at return")
-}
-
 func downRules(c *an.Ctx, r *runnerRoles, rule string) {
 	p := c.P
+	// registration before Up: on the Run trace
+	checkRunTable(c, rule, map[string]bool{"cleanup-registration": true})
 	f := r.ctxFn
-	// registration before Up
 	var store ssa.Instruction
-	for _, ci := range an.CallsIn(f, "(*sync.Map).Store") {
-		if an.FieldKey(ci.Common().Args[0]) == "TaskRunner.cleanupList" {
-			store = ci
+	for _, fn := range r.scope {
+		for _, ci := range an.CallsIn(fn, "(*sync.Map).Store") {
+			if an.FieldKey(ci.Common().Args[0]) == "TaskRunner.cleanupList" {
+				store, f = ci, fn
+			}
 		}
 	}
-	ups := an.CallsIn(f, fnCtxUp)
-	if store == nil || len(ups) == 0 {
+	if store == nil {
 		c.Bad(rule, an.Short(f)+":register", f.Pos(), "a resolved context is never registered for cleanup")
 	} else {
-		// on the named-context branch the registration precedes Up: every path from the context lookup to Up passes the Store
-		var lookup ssa.Instruction
-		an.EachInstr(f, func(in ssa.Instruction) {
-			if lk, ok := in.(*ssa.Lookup); ok && an.FieldProv(lk.X) == "TaskRunner.contexts" {
-				lookup = lk
-			}
-		})
-		good := false
-		if lookup != nil {
-			// from the lookup, Up is reached only after the Store
-			seenUpFirst := false
-			ok, _ := an.OnAllPathsToExit(lookup, func(in ssa.Instruction) bool {
-				if in == store {
-					return true
-				}
-				if in == ups[0].(ssa.Instruction) {
-					seenUpFirst = true
-					return true
-				}
-				return false
-			}, func(b *ssa.BasicBlock) bool { return true })
-			good = ok && !seenUpFirst
-		}
-		c.Check(good, rule, an.Short(f)+":register-before-up", store.Pos(), "a named context is registered for cleanup before its up commands are attempted", "a named context is registered only after Up/Before: if they fail for every task, Finish never runs down although up ran")
-		// what is stored is the resolved context
 		val := store.(ssa.CallInstruction).Common().Args[2]
 		c.Check(strings.Contains(an.FieldProv(val), "TaskRunner.contexts"), rule, an.Short(f)+":register(value)", store.Pos(), "the registered value is the context looked up", "the registered value is not the resolved context: "+an.FieldProv(val))
 	}
